@@ -25,6 +25,9 @@ func c04(c *Ctx) {
 	ck.A1(r)
 	ck.ExactSize(r, "writePacket", "targetPacketSize", 0x47)
 	ck.NoEmitBeforeLocalError(r, "writePacket")
+	// "adaptation field plus payload fill the packet exactly": the stuffing adaptation field WriteData asks for n free bytes
+	// occupies exactly n bytes, whatever state its maker may hold (otherwise writePacket pads after the payload)
+	c01Stuffing(c, ck)
 	ck.ReportAPI(r)
 	for _, d := range ck.IP.Diag {
 		r.Unknown("A0", "diag/"+d, "", d)
